@@ -106,7 +106,7 @@ theorem getLine_refines (b : Buf) (h : WF b) (hl : Loaded b) :
       rw [hsuf, hfr14.src, hfr14.off]
     refine ⟨?_, ?_, ?_, ?_⟩
     · exact ⟨hr4.2.hwin, hfit,
-        fun a ha => Nat.le_trans (hr4.2.hanch a ha) (Nat.le_add_right _ _), hr4.2.hps, hr4.2.heof, hr4.2.hnofp⟩
+        hr4.2.hanch, hr4.2.hps, hr4.2.heof, hr4.2.hnofp⟩
     · rw [specGetLine_ok _ hsne, hsrc4, ← d3, ← d2]
       simp only [Buf.abs, Prod.mk.injEq, true_and]
       have := hfr14.off
